@@ -854,6 +854,59 @@ def raising_state_callback_probe(n_reads):
     return simnet.run(go)
 
 
+def double_unsubscribe_probe(kind):
+    """An unsubscribe function called a second time (the connect callback's `unsub` twice; stop_notify() followed by its
+    remove_callback) while ANOTHER operation is the only remaining subscriber of that message type: the other operation is not
+    disturbed - a read in flight on peripheral B still fails when B's connection drops, notify data for B still arrives.
+    Returns a list of problems."""
+    async def go(loop):
+        from aioesphomeapi import api_pb2 as pb
+        net = simnet.Net(loop)
+        problems = []
+        with net.patched():
+            cli, tr = await simnet.connected_client(loop, net)
+            if kind == "connect-unsub":
+                t = asyncio.ensure_future(cli.bluetooth_device_connect(A1, lambda *a: None, timeout=5.0))
+                await simnet.drain(loop)
+                tr.feed(simnet.plain_msg(pb.BluetoothDeviceConnectionResponse(address=A1, connected=True, mtu=23)))
+                await simnet.drain(loop)
+                unsub = await t
+                rd = asyncio.ensure_future(cli.bluetooth_gatt_read(A2, 2, timeout=30.0))
+                await simnet.drain(loop)
+                unsub()
+                unsub()
+                tr.feed(simnet.plain_msg(pb.BluetoothDeviceConnectionResponse(address=A2, connected=False, error=19)))
+                await simnet.drain(loop)
+                if not rd.done():
+                    problems.append("a read in flight on another peripheral is still pending after that peripheral's connection dropped")
+                    rd.cancel()
+                elif rd.cancelled() or type(rd.exception()).__name__ != "BluetoothConnectionDroppedError":
+                    problems.append(f"the read on the other peripheral ended with {rd.exception()!r}")
+            else:
+                got_a, got_b = [], []
+                ta = asyncio.ensure_future(cli.bluetooth_gatt_start_notify(A1, 1, lambda h, d: got_a.append(bytes(d)), timeout=5.0))
+                tb = asyncio.ensure_future(cli.bluetooth_gatt_start_notify(A2, 2, lambda h, d: got_b.append(bytes(d)), timeout=5.0))
+                await simnet.drain(loop)
+                tr.feed(simnet.plain_msg(pb.BluetoothGATTNotifyResponse(address=A1, handle=1)) + simnet.plain_msg(pb.BluetoothGATTNotifyResponse(address=A2, handle=2)))
+                await simnet.drain(loop)
+                stop_a, remove_a = await ta
+                await tb
+                await stop_a()
+                remove_a()
+                tr.feed(simnet.plain_msg(pb.BluetoothGATTNotifyDataResponse(address=A2, handle=2, data=b"b1")))
+                await simnet.drain(loop)
+                if got_b != [b"b1"] or got_a:
+                    problems.append(f"notify data for the other characteristic arrived as {got_b} (and {got_a} at the stopped one)")
+            conn = priv(cli, "_connection")
+            if conn is None or not conn.is_connected:
+                problems.append("the session did not survive")
+            else:
+                await cli.disconnect(force=True)
+            await simnet.drain(loop)
+        return problems
+    return simnet.run(go)
+
+
 def run(rep, tier, seed):
     rng = random.Random(seed)
     rep.coverage["rule"] = (
@@ -905,6 +958,13 @@ def run(rep, tier, seed):
     rep.bump("probe:refused-operations")
     if problems:
         rep.violation("C16/left-subscribed", f"{problems[0]}; {len(problems)} such call(s): a finished operation leaves nothing subscribed", {"kind": "refused-operations"})
+    for kind in ("connect-unsub", "notify-stop-remove"):
+        problems = double_unsubscribe_probe(kind)
+        rep.case(("double-unsubscribe", kind), True, sample={"double_unsubscribe": kind, "problems": problems[:2]})
+        rep.bump("probe:double-unsubscribe")
+        if problems:
+            rep.violation("C16/cross-talk", f"an unsubscribe function called a second time ({kind}) while another operation is the only subscriber left: {problems[0]}",
+                          {"kind": "double-unsubscribe", "which": kind})
     for n_reads in (1, 4, 12):
         outs, pending = raising_state_callback_probe(n_reads)
         rep.case(("raising-state-callback", n_reads), True, sample={"raising_state_callback": n_reads, "outcomes": outs, "pending": pending})
@@ -941,6 +1001,10 @@ def replay(path):
     common.setup_impl_path()
     load_consts()
     d = json.loads(open(path).read())["replay"]
+    if d.get("kind") == "double-unsubscribe":
+        problems = double_unsubscribe_probe(d["which"])
+        print(problems)
+        return 1 if problems else 0
     if d.get("kind") == "raising-state-callback":
         r = raising_state_callback_probe(d["reads"])
         print(r)
